@@ -154,6 +154,10 @@ class Ops(SeriesOps):
         # law: df[c] = [f(v) for v in df[a]]  ==  df[a].apply(f)  (a list is stored positionally; it was built from the rows of the same frame in row order)
         if isinstance(v, tuple) and len(v) == 5 and v[0] == "comp" and v[1] == "list" and v[4] == T.TRUE and isinstance(v[3], tuple) and len(v[3]) == 3 and v[3][0] == "seriter" and v[3][2] == f.ctx():
             return _strip_row(v[2])
+        # ... and df[c] = [g(x, y) for x, y in zip(df[a].tolist(), df[b].tolist())]: the zip of tolists over the frame's own rows walks them in order
+        if isinstance(v, tuple) and len(v) == 5 and v[0] == "comp" and v[1] == "list" and v[4] == T.TRUE and isinstance(v[3], tuple) and len(v[3]) == 2 and v[3][0] == "zip" \
+                and v[3][1] and all(isinstance(x, tuple) and len(x) == 3 and x[0] == "tolist" and x[2] == f.ctx() for x in v[3][1]):
+            return _strip_row(v[2])
         return to_term(v)
 
     def set_column(self, f: Frame, name: Any, v: Any, node) -> None:
@@ -251,7 +255,16 @@ class Ops(SeriesOps):
         kind = kw.get("kind", "quicksort")
         terms = tuple(f.col(b) if isinstance(b, str) else to_term(b) for b in by_l)
         prev = f.order if kind in STABLE_KINDS else None
-        order = ("sort", terms, tuple(asc) if isinstance(asc, list) else asc, kind, prev)
+        asc_n = tuple(asc) if isinstance(asc, list) else asc
+        # law: a stable sort by K over a stable sort by J (disjoint keys) is the stable sort by (K, J)
+        if isinstance(prev, tuple) and prev and prev[0] == "sort" and prev[3] in STABLE_KINDS and not (set(terms) & set(prev[1])):
+            a1 = list(asc_n) if isinstance(asc_n, tuple) else [asc_n] * len(terms)
+            a2 = list(prev[2]) if isinstance(prev[2], tuple) else [prev[2]] * len(prev[1])
+            both = a1 + a2
+            terms_m = terms + tuple(prev[1])
+            order = ("sort", terms_m, both[0] if all(x == both[0] for x in both) and not isinstance(asc_n, tuple) and not isinstance(prev[2], tuple) else tuple(both), "stable", prev[4])
+        else:
+            order = ("sort", terms, asc_n, kind, prev)
         g = f.derive(order=order)
         if kw.get("ignore_index") is True:
             g.index = ("range", g.ctx())
@@ -514,14 +527,28 @@ class Ops(SeriesOps):
             return Ser(("frameagg", fn, f.ctx()), ("frameagg", fn, f.ctx()), None)
         return m
 
+    def _rowwise(self, f, fn, pos, kw):
+        """frame.max/min/sum(axis=1) over a frame whose columns are known: the fold of the column terms, one value per row"""
+        axis = kw.get("axis", pos[0] if pos else 0)
+        cn = f.colnames()
+        if axis in (1, "columns") and cn and len(cn) <= 8:
+            ts = [f.col(c) for c in cn]
+            acc = ts[0]
+            for t in ts[1:]:
+                acc = T.max2(acc, t) if fn == "max" else T.min2(acc, t) if fn == "min" else T.add(acc, t)
+            return Ser(acc, f.ctx(), f)
+        if axis in (1, "columns"):
+            return Ser(("rowagg", fn, f.ctx()), f.ctx(), f)
+        return None
+
     def f_sum(self, f, pos, kw, node):
-        return Ser(("frameagg", "sum", f.ctx()), ("frameagg", "sum", f.ctx()), None)
+        return self._rowwise(f, "sum", pos, kw) or Ser(("frameagg", "sum", f.ctx()), ("frameagg", "sum", f.ctx()), None)
 
     def f_min(self, f, pos, kw, node):
-        return Ser(("frameagg", "min", f.ctx()), ("frameagg", "min", f.ctx()), None)
+        return self._rowwise(f, "min", pos, kw) or Ser(("frameagg", "min", f.ctx()), ("frameagg", "min", f.ctx()), None)
 
     def f_max(self, f, pos, kw, node):
-        return Ser(("frameagg", "max", f.ctx()), ("frameagg", "max", f.ctx()), None)
+        return self._rowwise(f, "max", pos, kw) or Ser(("frameagg", "max", f.ctx()), ("frameagg", "max", f.ctx()), None)
 
     def f_count(self, f, pos, kw, node):
         return Ser(("frameagg", "count", f.ctx()), ("frameagg", "count", f.ctx()), None)
